@@ -764,6 +764,14 @@ def splice(fn_text, c, key, counts):
                 j = _close_in(toks, j)
             j += 1
         pad = _line_indent(fn_text, toks[loop_toks[n]].pos) + "    "
+        # leading `#[...]` lines of a loop specification are attributes of the loop itself (e.g. per-loop isolation)
+        sl = spec.split("\n")
+        attrs = []
+        while sl and sl[0].strip().startswith("#["):
+            attrs.append(sl.pop(0).strip())
+        spec = "\n".join(sl)
+        if attrs:
+            edits.append((toks[loop_toks[n]].pos, ins(" ".join(attrs) + " ")))
         edits.append((toks[j].pos, ins("\n" + _indent(spec, pad) + pad[:-4])))
         counts["R5.loop"] = counts.get("R5.loop", 0) + 1
     # anchored inserts
